@@ -11,6 +11,7 @@ RULE = ('all 2-state epsilon-NFAs over one symbol (1024; thorough: a sample of 2
         'under 2 (quick) / 8 (thorough) PYTHONHASHSEED values; nfa_to_dfa; each DFA state name is read back as a set of NFA states. Relation: total valid DFA, same alphabet, language-equal to the NFA '
         '(exact: verified product-reachability test against the model subset automaton), initial state = epsilon closure of the NFA initial state, every state reachable; structural layer: identical subsets and transitions. '
         'Non-trivial = the NFA has an epsilon move and the DFA has >= 2 states; distinct by NFA text.')
+RULE += ' Added after the seeded rounds: unusual state names (q1 / q10, separators), epsilon chains of 16-19 states (subset labels > 64 characters), plain-dict partial relations, the state names themselves compared with the Naming model (informational).'
 CODES = {2: 'nfa_to_dfa raised / timed out', 3: 'result is not a valid total DFA', 4: 'alphabet changed', 5: 'DFA not language-equivalent to the NFA', 6: 'initial state is not the epsilon closure of the NFA initial state',
          7: 'result has an unreachable state', 8: 'internal: model out of fuel', 9: 'generated NFA invalid (harness)', 10: 'the input NFA was modified', 1: 'structure differs from the model, property-level relation holds'}
 ASSUMPTIONS = ['state names contain no comma or brace (print_state_set injective)']
@@ -37,6 +38,11 @@ def gen(rng, tier):
     for _ in range(25 if quick else 400):
         ns.append(G.chain_nfa(rng, sigma=rng.choice(['ab', 'a']), eps=rng.choice(['_', ''])))
     cases = [{'N': n} for n in ns]
+    # partial transition relations stored in a plain dict (no defaultdict): a missing key means "no transition"
+    for _ in range(150 if quick else 2500):
+        k = rng.randint(2, 6)
+        n = G.random_nfa(rng, k, rng.choice(['a', 'ab']), rng.choice(['_', '']), peps=rng.choice([0.2, 0.4]), density=rng.choice([0.3, 0.6]))
+        cases.append({'N': n, 'plain': True})
     # the same NFA object is modified in place (transitions added / removed, accepting set changed) and determinised again
     for _ in range(120 if quick else 1500):
         sigma = rng.choice(['a', 'ab'])
@@ -50,7 +56,7 @@ def gen(rng, tier):
 def observe(c):
     from gambatools.nfa_algorithms import nfa_to_dfa
     from implutil import safe, ok
-    N = conv.nfa_obj(c['N'])
+    N = conv.nfa_obj(c['N'], plain_dict=bool(c.get('plain')))
     before = conv.nfa_case(N)
     r = safe(nfa_to_dfa, N)
     out = {'D': conv.dfa_case(r[1]) if ok(r) else None, 'unchanged': conv.nfa_case(N) == before}
